@@ -61,12 +61,12 @@ def run(ctx, replay=None):
     if not cases or not ecases:
         raise Infra("case export produced nothing")
     # 3. sequences of two calls: representative first call x every second call
-    r = ctx.tlc("client", "MCLogClient", "LogClientSeq.cfg", workers=1, count=False)
+    r = ctx.tlc("client", "MCLogClient", ctx.pick("LogClientSeqSmall.cfg", "LogClientSeq.cfg"), workers=1, count=False)
     seqs = dedup(r.records.get("BEH", []))
     if not seqs:
         raise Infra("sequence export produced nothing")
     if not ctx.thorough():
-        # quick tier: every second call after 12 seeded representatives per (method of the second call)
+        # quick tier: every second call after (at most) 6 seeded first calls
         import random
         rnd = random.Random(ctx.seed)
         by = {}
